@@ -64,3 +64,47 @@ def run_seeds(prop, mod, runner_ctx_factory):
         finally:
             shutil.rmtree(tmp, ignore_errors=True)
     return out
+
+
+def refactors_of(prop):
+    d = os.path.join(VERIF, "refactors")
+    if not os.path.isdir(d):
+        return []
+    return sorted(os.path.join(d, x) for x in os.listdir(d) if x.startswith(prop + "-r") and os.path.exists(os.path.join(d, x, "patch.diff")))
+
+
+def run_refactors(prop, mod, runner_ctx_factory):
+    """the other direction: behaviour-preserving restructurings of the code this property is anchored in (refactors/<id>/, written
+    by sub-agents, suite-passing, with an argument why behaviour is unchanged) must NOT be reported.
+    -> list of {probe, status: silent|alarm|skipped, keys}"""
+    out = []
+    known = set()
+    kp = os.path.join(VERIF, "known_findings.json")
+    if os.path.exists(kp):
+        known = {e["key"] for e in json.load(open(kp)).get("findings", []) if e.get("status") == "known" and e.get("property") == prop}
+    for sd in refactors_of(prop):
+        name = os.path.basename(sd)
+        tmp, root = scratch_copy(extract.REPO)
+        try:
+            p = subprocess.run(["patch", "-p1", "--no-backup-if-mismatch", "-s", "-i", os.path.join(sd, "patch.diff")], cwd=root, capture_output=True, text=True)
+            if p.returncode != 0:
+                out.append({"probe": name, "status": "skipped", "why": "patch no longer applies to the current tree"})
+                continue
+            try:
+                d, h, dt = extract.ensure_facts(root=root, verbose=False)
+            except SystemExit:
+                out.append({"probe": name, "status": "skipped", "why": "patched tree does not build"})
+                continue
+            prog = mir.load(d)
+            rep = report.Report(prop, "thorough")
+            ctx = runner_ctx_factory(prog, d, rep, root)
+            try:
+                mod.check(ctx)
+            except Exception as e:
+                rep.bad("CHECKER", "CHECKER:crash", "-", "rules raised %r on the refactored tree" % e)
+            keys = [k for k, _m, _w, _d in rep.violations if k not in known]
+            out.append({"probe": name, "status": "alarm" if keys else "silent", "keys": keys[:4]})
+            shutil.rmtree(d, ignore_errors=True)
+        finally:
+            shutil.rmtree(tmp, ignore_errors=True)
+    return out
